@@ -7,5 +7,5 @@ CONSTANTS
   WithIntr = FALSE
 INIT VInit
 NEXT VNextA
-INVARIANTS Refines VTypeOK VVarsTyped Linked FramesAtLineStart SliceInvariant
+INVARIANTS Refines NoRunWithErrors VTypeOK VVarsTyped Linked FramesAtLineStart SliceInvariant
 CHECK_DEADLOCK FALSE
